@@ -47,6 +47,8 @@ def g_fprof(spec):
         return "(fun f fc => let r := 1 - Qabs (f - fc) / %s in if Qle_bool 0 r then r else 0)" % gq(spec["w"])
     if k == "quad":
         return "(fun f fc => 1 / (1 + %s * (f - fc) * (f - fc)))" % gq(spec["a"])
+    if k == "step":
+        return "(fun f fc => (1 / (1 + %s * (f - fc) * (f - fc))) * (if Qle_bool %s f then 1 else (1 # 2)))" % (gq(spec["a"]), gq(spec["f0"]))
     raise ValueError(k)
 
 
@@ -70,7 +72,7 @@ def g_step(c, fmin, data_hex, s):
 def is_exact(c, s):
     o = s.get("opts", {})
     p2 = lambda n: n & (n - 1) == 0
-    if s["fprof"]["kind"] == "quad" or c.get("prior") in ("noise", "float32"):
+    if s["fprof"]["kind"] in ("quad", "step") or c.get("prior") in ("noise", "float32"):
         return False
     if s["fprof"]["kind"] == "tri" and not p2(int(s["fprof"]["w"])):
         return False
@@ -154,6 +156,9 @@ def gen_signal(rng, c, fmin, opts_all=True, br_kinds=None):
              opts=o)
     # a discontinuous (box) profile is only compared where the doubles are exact: an edge that falls exactly on a
     # sub-sample position would otherwise flip with the last bit of p + k*dp
+    if rng.random() < 0.1:
+        # a frequency profile that is NOT a function of f - f_centre alone (the signature is f_profile(f, f_centre) for a reason)
+        s["fprof"] = dict(kind="step", a=float(rng.choice([1, 0.25])), f0=fmin + (rng.randint(1, F - 1) - 0.5) * df)
     if c.get("prior") == "float32" and rng.random() < 0.75:
         # data kept in single precision: "data after = data before + signal, rounded once to the data's type" is only put to the test by
         # signal values that are not themselves single-precision numbers -- the rational profile
@@ -249,6 +254,9 @@ def _fp(spec):
         w = Fraction(spec["w"])
         return lambda f, fc: max(Fraction(0), 1 - abs(f - fc) / w)
     a = Fraction(spec["a"])
+    if k == "step":
+        f0 = Fraction(spec["f0"])
+        return lambda f, fc: (1 / (1 + a * (f - fc) ** 2)) * (1 if f >= f0 else Fraction(1, 2))
     return lambda f, fc: 1 / (1 + a * (f - fc) ** 2)
 
 
